@@ -67,17 +67,38 @@ theorem effectiveVox_symm (f : Flags) (V : Int) (vy vx : Rat) (p t o : Bool) :
   unfold Flags.effectiveVox
   rw [squareVoxels_symm]
 
-/-- the 90° switch survives the constructor only if the guard passes -/
-theorem effectiveVox_d90 (f : Flags) (V : Int) (vy vx : Rat) (p t o : Bool)
-    (h : (f.effectiveVox V vy vx p t o).d90 = true) : squareVoxels vy vx = true := by
+/-- the 90° switch survives the constructor only if its "square" input is true -/
+theorem effective_d90 (f : Flags) (V : Int) (sq p t o : Bool) (h : (f.effective V sq p t o).d90 = true) : sq = true := by
   rcases f with ⟨a, b, c, d, e⟩
-  unfold Flags.effectiveVox Flags.effective at h
-  cases hs : squareVoxels vy vx
-  · rw [hs] at h
-    revert h
+  unfold Flags.effective at h
+  cases sq
+  · revert h
     cases a <;> cases b <;> cases c <;> cases d <;> cases p <;> cases t <;> cases o <;>
       cases (V.tmod 4 != 0) <;> cases (V.tmod 2 != 0) <;> simp
   · rfl
+
+/-- … hence only if the voxel-size guard passes -/
+theorem effectiveVox_d90 (f : Flags) (V : Int) (vy vx : Rat) (p t o : Bool)
+    (h : (f.effectiveVox V vy vx p t o).d90 = true) : squareVoxels vy vx = true :=
+  effective_d90 f V _ p t o h
+
+theorem effectiveImg_d90 (f : Flags) (V : Int) (vy vx : Rat) (r : Bool) (minY maxY minX maxX : Int) (p t o : Bool)
+    (h : (f.effectiveImg V vy vx r minY maxY minX maxX p t o).d90 = true) :
+    squareVoxels vy vx = true ∧ (r = true → minY = minX ∧ maxY = maxX) := by
+  have h1 := effective_d90 f V _ p t o h
+  simp only [Bool.and_eq_true, Bool.or_eq_true, Bool.not_eq_true', decide_eq_true_eq] at h1
+  refine ⟨h1.1, fun hr => ?_⟩
+  rcases h1.2 with h2 | h2
+  · rw [hr] at h2; cases h2
+  · exact h2
+
+theorem effectiveImg_symm (f : Flags) (V : Int) (vy vx : Rat) (r : Bool) (minY maxY minX maxX : Int) (p t o : Bool) :
+    f.effectiveImg V vy vx r minY maxY minX maxX p t o = f.effectiveImg V vx vy r minX maxX minY maxY p t o := by
+  unfold Flags.effectiveImg
+  rw [squareVoxels_symm vy vx]
+  have h1 : decide (minY = minX) = decide (minX = minY) := by simp only [eq_comm]
+  have h2 : decide (maxY = maxX) = decide (maxX = maxY) := by simp only [eq_comm]
+  rw [h1, h2]
 
 /-! ### how far apart the voxel sizes can be when the guard passes -/
 
